@@ -248,7 +248,10 @@ def e2e_run(case, observe=None, save_dir=None):
             observe(ps, "after_set_load", {"inc": inc_idx})
         ps.update_sequence_history = ush
         ps.set_load_and_cost = slc
-    times = np.array([float(dt * k) for k in range(1, n_inc + 1)])
+    from . import c17
+    unit = case.get("unit", 3)                     # the run's time unit (the same instants written in s / min / h / d)
+    times = np.array([float(dt * k * 3600 / c17.FACT[unit]) for k in range(1, n_inc + 1)])
+    TU = c17.U(unit)
     iters = case.get("iters", 1)
     if iters > 1:
         # several Monte Carlo iterations on the same object, through the simulator's own run_iteration (reset_system in between)
@@ -266,15 +269,15 @@ def e2e_run(case, observe=None, save_dir=None):
                         observe(ps, "iteration_start", {"it": _it})
                 ps.initialize_sequence_history = ish
                 try:
-                    sim_run(it=it, start_time=TimeStamp(), time_array=times, time_unit=TimeUnit.HOUR, save_dir=None,
+                    sim_run(it=it, start_time=TimeStamp(), time_array=times, time_unit=TU, save_dir=None,
                             save_flag=False, random_seed=0, callback=cb)
                 finally:
                     ps.initialize_sequence_history = orig_ish
         return ps, sim
-    sim.run_sequence(TimeStamp(), times, TimeUnit.HOUR, cb, case.get("save", True))
+    sim.run_sequence(TimeStamp(), times, TU, cb, case.get("save", True))
     if save_dir is not None:
         from relsad.simulation.sequence.history import save_sequence_history
-        save_sequence_history(ps, TimeUnit.HOUR, save_dir)
+        save_sequence_history(ps, TU, save_dir)
     return ps, sim
 
 
@@ -302,6 +305,8 @@ def gen_e2e(rng, n, kinds=("line", "trafo"), repeat=False):
         if repeated and not spec.get("mg"):
             spec["mg"] = {"host": [0, rng.randrange(len(spec["feeders"][0]["parent"]))], "mode": rng.choice(["survival", "full", "limited"]),
                           "discon": rng.random() < 0.5, "n": 2, "battery": {"p": "1", "q": "1", "e": "2", "smin": "1/10", "smax": "1", "eta": "1"}}
+        if len(cases) % 6 == 4:
+            case["unit"] = [2, 1, 4, 2, 2, 1][(len(cases) // 6) % 6]          # the run's time unit is not hours (minutes, seconds, days in turn)
         distbat = len(cases) % 5 == 2
         if distbat:
             # targeted: a battery on a bus of the distribution network itself (no microgrid mode); a fault upstream leaves it as the
@@ -317,6 +322,8 @@ def gen_e2e(rng, n, kinds=("line", "trafo"), repeat=False):
             while rng.random() < 0.5 and spec["feeders"][0]["parent"][up] >= 0:
                 up = spec["feeders"][0]["parent"][up]
             case["faults"].setdefault(str(rng.randint(1, 3)), []).append(["line", f"F0L{up}", "3"])
+        if case.get("unit") and "line" in kinds:
+            case["faults"].setdefault(str(rng.randint(1, 3)), []).append(["line", "F0L0", "2"])       # something is shed for sure
         if repeat and len(cases) % 4 == 1:
             # targeted: a pure storage bus (battery or EV park on a bus without load profile of its own) that charges for some
             # increments and is then cut off from the feed / loses its transformer
